@@ -96,7 +96,9 @@ class C20(Prop):
             "Proof-only: readFile (storeDs ds) none none returns ds (keys, axes, attrs, cells; WfDs: plain axes, distinct dims / keys, "
             "shared axes, shapes), hence the multi-file read of files written from Datasets is stack_ds / concatenate_ds of them (SameDs). "
             "Non-trivial = rank >= 1; distinct = canonical JSON")
-    assumptions = ["PARTIAL: the vendored stand-in's fidelity to netCDF4-python / libnetcdf (orthogonal indexing with "
+    assumptions = ["multi-file tie: a read with names= and an index along a dimension that none of the requested variables has is decided by the "
+                   "per-file oracle alone (the library never resolves that index; the mirror OnDiskMulti.readFile resolves it on the file's axes)",
+                   "PARTIAL: the vendored stand-in's fidelity to netCDF4-python / libnetcdf (orthogonal indexing with "
                    "unsorted / repeated integer sequences, 0-d variables, unlimited dimensions) is assumed"]
 
     def mirrors(self):
@@ -806,6 +808,15 @@ class C20(Prop):
             return ["lean.multi.no_answer"]
         got = io["ok"]["got"]
         names = c.get("names")
+        idx = c.get("indices")
+        if names is not None and idx:
+            # OUTSIDE THE MIRROR (found by the thorough sweep, seed 31): with `names=` the library applies an index only to the
+            # variables that have the indexed dimension, so an index along a dimension that NONE of the requested variables has is
+            # never resolved (and an out-of-range position in one file goes unnoticed), whereas `OnDiskMulti.readFile` resolves the
+            # index once on all of the file's axes and refuses. Such cases are decided by the per-file oracle alone.
+            sel = [names] if isinstance(names, str) else list(names)
+            if not any(idx["dim"] in c["ds"]["vars"][k]["dims"] for k in sel if k in c["ds"]["vars"]):
+                return []
         if isinstance(names, str):
             lean = ans.get("libvar") or lean
         if "err" in got or "err" in lean:
